@@ -8,6 +8,7 @@ depths, limits, re-execution, removal, predicates) are compared by the Lean judg
 import hashlib
 import json
 import os
+import random
 from checklib import sh, parse_kv_line
 
 CLAUSES = {
@@ -20,6 +21,94 @@ CLAUSES = {
     "g": "max_start_depth only reports unrestricted matches rooted at depth <= d",
     "h": "QueryCaptures with predicates agrees with QueryMatches with predicates",
 }
+
+
+
+def unit_level(ctx, driver):
+    """Function level: the ports of the finished-state heap and of the capture-list pool
+    (TsVerif/C11/Heap.lean) against the REAL static functions, on random operation scripts."""
+    exe = ctx.cunit("cunit_c11")
+    if not exe:
+        return
+    rnd = random.Random(ctx.seed * 7919 + 11)
+    ops = []
+    sessions = 400 if ctx.tier == "thorough" else 60
+    for _ in range(sessions):
+        ops.append("hnew")
+        live = 0
+        for _ in range(rnd.randint(5, 60)):
+            r = rnd.random()
+            if r < 0.45 or live == 0:
+                n = rnd.randint(0, 4)
+                start = rnd.randint(0, 12)
+                bs = sorted(rnd.randint(start, start + 10) for _ in range(n))
+                ops.append("hpush %d %d %s" % (rnd.randint(0, 3), n, " ".join(map(str, bs))))
+                live += 1
+            elif r < 0.55:
+                ops.append("hheapify")
+            elif r < 0.75:
+                ops.append("hconsume")
+            elif r < 0.9:
+                ops.append("hpop")
+                live = max(0, live - 1)
+            else:
+                ops.append("herase %d" % rnd.randint(0, max(0, live - 1)))
+                live = max(0, live - 1)
+    for _ in range(sessions):
+        ops.append("pnew")
+        ops.append("pmax %d" % rnd.choice([0, 1, 2, 3, 4, 8, 4294967295]))
+        for _ in range(rnd.randint(5, 50)):
+            r = rnd.random()
+            if r < 0.5:
+                ops.append("pacq")
+            elif r < 0.8:
+                ops.append("prel %d" % rnd.randint(0, 9))
+            elif r < 0.88:
+                ops.append("pempty")
+            elif r < 0.94:
+                ops.append("pmax %d" % rnd.choice([0, 1, 2, 3, 5, 4294967295]))
+            else:
+                ops.append("preset")
+    script = os.path.join(ctx.workdir, "unit_ops.txt")
+    open(script, "w").write("\n".join(ops) + "\n")
+    rc, cout = sh("%s < %s" % (exe, script), timeout=600)
+    clines = [l for l in cout.split("\n") if l.strip()]
+    if rc != 0 or len(clines) != len(ops):
+        ctx.oblige("run:cunit_c11", False, "rc=%d lines=%d ops=%d %s" % (rc, len(clines), len(ops), cout[-300:]))
+        return
+    feed = os.path.join(ctx.workdir, "unit_feed.txt")
+    with open(feed, "w") as f:
+        for o, c in zip(ops, clines):
+            f.write("uop %s\nuc %s\n" % (o, c))
+    rc, out = sh("%s < %s" % (driver, feed), timeout=600)
+    compared = equal = heap_bad = 0
+    first = None
+    for line in out.split("\n"):
+        if not line.startswith("unit#"):
+            continue
+        cid, kv = parse_kv_line(line)
+        compared += 1
+        if kv.get("corr") == "ok":
+            equal += 1
+        elif first is None:
+            first = (cid, kv.get("corr", "")[:300], ops[int(cid.split("#")[1])])
+        if kv.get("judge") != "ok":
+            heap_bad += 1
+            if heap_bad <= 3:
+                i = int(cid.split("#")[1])
+                # the session that led here is the replayable input
+                j = max(k for k in range(i + 1) if ops[k] in ("hnew", "pnew"))
+                ctx.violation("judge", "C11 finished-state heap: heap property broken after `%s` (real finished_state_* functions)" % ops[i],
+                              {"case": cid, "clause": "u", "unit_script": ops[j:i + 1], "result": kv},
+                              fingerprint={"clause": "u", "kind": "heap-property"})
+    ctx.oblige("corr:Heap.lean=finished_state_*/capture_list_pool_*", compared > 0 and compared == equal,
+               "%d of %d operation results equal; first difference: %s" % (equal, compared, first))
+    if compared != equal:
+        ctx.violation("corr", "Lean port of the finished-state heap / capture-list pool disagrees with the real functions: %s" % (first,),
+                      {"first": first, "correspondence": "TsVerif/C11/Heap.lean vs lib/src/query.c finished_state_*, capture_list_pool_*"},
+                      fingerprint={"corr": "heap-pool"}, found_input=False)
+    ctx.coverage["unit_level"] = {"operations": len(ops), "compared": compared, "equal": equal, "heap_property_failures": heap_bad,
+                                  "rule": "random scripts: push (0-4 captures), lazy heapify, consume-root, pop, erase(i); pool acquire/release/is_empty/reset under changing limits"}
 
 
 def run(ctx):
@@ -37,6 +126,8 @@ def run(ctx):
     explorer = ctx.cargo_bin("c11")
     if not (explorer and os.path.exists(driver)):
         return ctx.finish()
+    if not ctx.replay:
+        unit_level(ctx, driver)
     ops = os.path.join(ctx.workdir, "ops.txt")
     if ctx.replay:
         rp = json.load(open(ctx.replay))
